@@ -1314,6 +1314,8 @@ where
                     if !same {
                         self.verif_emit("skip.stale", Some(key), 0, 0, 0);
                     }
+                    // the (updated) entry of this key goes to the back of the queues
+                    self.verif_emit("skip.dirty", Some(key), 0, 0, 0);
                 }
                 Deques::move_to_back_ao_in_deque(deq_name, deq, &entry);
                 Deques::move_to_back_wo_in_deque(write_order_deq, &entry);
@@ -1376,6 +1378,8 @@ where
                 Self::handle_remove(deqs, entry, counters);
             } else if let Some(entry) = self.cache.get(key) {
                 if entry.is_dirty() {
+                    #[cfg(mini_moka_verif)]
+                    self.verif_emit("skip.dirty", Some(key), 0, 1, 0);
                     deqs.move_to_back_ao(&entry);
                     deqs.move_to_back_wo(&entry);
                 } else {
